@@ -531,12 +531,27 @@ def effective(kind):
     return cfg
 
 
+def probe_live(ctx, live, steps, kbox):
+    for kind, pair in live:
+        eff_cfg = effective(kind)
+        cfg = {s: eff_cfg[s] for s in models.SWITCHES}
+        n0 = ctx.counters["violations_raw"]
+        for (n, sh, op) in PROBE_TABLE:
+            kbox[0] += 1
+            decide(ctx, pair, cfg, eff_cfg["exposed_prefix"], n, sh, op, kbox[0])
+        if ctx.counters["violations_raw"] != n0:
+            ctx.violation("C06/isolation/decision-changed", "a %s connection decides differently after the history %r" % (kind, steps),
+                          dict(history=steps, kind=kind))
+        ctx.count("isolation_probes", len(PROBE_TABLE))
+
+
 def isolation_history(ctx, rng, idx, default_snapshot):
     import rpyc
     from rpyc.core import protocol
     live = []
     steps = []
-    k = 100000 * (idx + 1)
+    kbox = [100000 * (idx + 1)]
+    shared = {} if idx % 3 == 1 else None
     try:
         for step in range(rng.randrange(3, 13)):
             if live and rng.random() < .35:
@@ -548,22 +563,29 @@ def isolation_history(ctx, rng, idx, default_snapshot):
                 kind = rng.choice(list(KINDS))
                 if kind == "classic":
                     pair = vnet.ServedPair(rpyc.VoidService(), rpyc.SlaveService())
+                elif shared is not None:
+                    # the application keeps ONE dict and edits it in place for the next connection
+                    shared.clear()
+                    shared.update(KINDS[kind])
+                    pair = vnet.ServedPair(rpyc.VoidService(), rpyc.VoidService(), cfg_b=shared, cfg_b_as_is=True)
+                    ctx.count("isolation_opens_reusing_one_dict")
                 else:
                     pair = vnet.ServedPair(rpyc.VoidService(), rpyc.VoidService(), cfg_b=dict(KINDS[kind]))
                 live.append((kind, pair))
-                steps.append(("open", kind))
-            # after every step: every live connection still decides by its own configuration
-            for kind, pair in live:
-                eff_cfg = effective(kind)
-                cfg = {s: eff_cfg[s] for s in models.SWITCHES}
-                n0 = ctx.counters["violations_raw"]
-                for (n, sh, op) in PROBE_TABLE:
-                    k += 1
-                    decide(ctx, pair, cfg, eff_cfg["exposed_prefix"], n, sh, op, k)
-                if ctx.counters["violations_raw"] != n0:
-                    ctx.violation("C06/isolation/decision-changed", "a %s connection decides differently after the history %r" % (kind, steps),
-                                  dict(history=steps, kind=kind))
-                ctx.count("isolation_probes", len(PROBE_TABLE))
+                steps.append(("open", kind) if shared is None or kind == "classic" else ("open", kind, "same dict object edited in place"))
+            # after every step: every live connection still decides by its own configuration;
+            # now and then while the module-level defaults are edited (which configures FUTURE connections only)
+            edited = None
+            if idx % 3 == 2 and live and rng.random() < .4:
+                edited = rng.choice([("allow_public_attrs", True), ("allow_all_attrs", True), ("allow_getattr", False), ("exposed_prefix", "zz_")])
+                protocol.DEFAULT_CONFIG[edited[0]] = edited[1]
+                steps.append(("defaults edited while probing", edited[0]))
+                ctx.count("isolation_probes_under_edited_defaults")
+            try:
+                probe_live(ctx, live, steps, kbox)
+            finally:
+                if edited is not None:
+                    protocol.DEFAULT_CONFIG[edited[0]] = default_snapshot[edited[0]]
             if protocol.DEFAULT_CONFIG != default_snapshot:
                 diff = [key for key in default_snapshot if protocol.DEFAULT_CONFIG.get(key) != default_snapshot[key]]
                 ctx.violation("C06/isolation/default-config-changed", "DEFAULT_CONFIG changed (%r) after %r" % (diff, steps), dict(history=steps))
